@@ -282,6 +282,7 @@ void gen_c06(Gen &g) {
 // generic history generator on small caller buffers (C07, C13, C15 share it with different mixes)
 struct HistCfg {
   int w_asm = 45, w_count = 8, w_chunk = 10, w_offset = 15, w_setter = 8, w_debug = 3, w_other_inst = 4, w_exec = 0;
+  int w_file = 0;    // the file entry points (text taken from a simulated file)
   int w_repeat = 0;  // the same text again at the same offset as an earlier call (after whatever happened in between)
   int max_ops = 30;
   long n_lo = 0, n_hi = 80;
@@ -327,7 +328,7 @@ void gen_history_task(Gen &g, Task &t, const HistCfg &cfg) {
     gi[0].m.offset = so.k;
   }
   int nops = (int)r.geom(3, cfg.max_ops, 10);
-  int total = cfg.w_asm + cfg.w_count + cfg.w_chunk + cfg.w_offset + cfg.w_setter + cfg.w_debug + cfg.w_other_inst + cfg.w_exec + cfg.w_repeat;
+  int total = cfg.w_asm + cfg.w_count + cfg.w_chunk + cfg.w_offset + cfg.w_setter + cfg.w_debug + cfg.w_other_inst + cfg.w_exec + cfg.w_repeat + cfg.w_file;
   std::vector<std::string> last_prog[2];
   long last_start[2] = {-1, -1};
   for (int i = 0; i < nops; i++) {
@@ -339,6 +340,39 @@ void gen_history_task(Gen &g, Task &t, const HistCfg &cfg) {
       continue;
     }
     int w = (int)r.below((uint64_t)total);
+    if ((w -= cfg.w_file) < 0) {
+      bool counting = r.chance(1, 3);
+      if (counting && (m.chunk > 0 || m.chunk_unknown) && !cfg.count_on_fit) continue;
+      FileSpec f;
+      f.path = "/sim/h" + std::to_string(g.p.world.files.size()) + ".asm";
+      std::vector<std::string> prog = gen_program(r, (int)r.range(1, 8), r.chance(1, 3) ? 4 : 0, ((int)r.below(100) < cfg.reject_pct) ? (int)r.below(3) : -1);
+      bool fin = r.coin();
+      for (size_t q = 0; q < prog.size(); q++) {
+        f.data += prog[q];
+        if (q + 1 < prog.size() || fin) f.data.push_back('\n');
+      }
+      g.p.world.files.push_back(f);
+      Op o = g.mk(counting ? OP_COUNT_FILE : OP_ASM_FILE, slot);
+      o.path = f.path;
+      o.c = r.chance(1, 8) ? r.range(-2, 1) : r.range(2, 48);
+      t.ops.push_back(o);
+      std::vector<std::string> lines = split_lines(f.data);
+      if (m.offset_unspec || m.chunk_unknown || (counting && m.chunk > 0)) {
+        m.offset_unspec = true;
+        if (counting && m.chunk > 0) m.chunk_unknown = true;
+      } else {
+        long end = 0;
+        int mode = counting ? M_COUNT : (m.chunk > 0 ? M_FIT : M_PLAIN);
+        int fr = walk_expect(m, lines, mode, counting ? o.c : m.chunk, m.offset, &end, nullptr, nullptr);
+        if (fr == FR_NONE) {
+          m.offset = end;
+          m.hi = std::max(m.hi, end);
+        } else
+          m.offset_unspec = true;
+      }
+      m.offset_explicit = false;
+      continue;
+    }
     if ((w -= cfg.w_repeat) < 0) {
       if (last_start[slot] < 0 || last_prog[slot].empty()) continue;
       Op so = g.mk(OP_OFFSET, slot);
@@ -508,6 +542,7 @@ void gen_c07(Gen &g) {
   Rng &r = g.r;
   HistCfg cfg;
   cfg.count_on_fit = true;
+  cfg.w_file = 6;
   cfg.p_after_fail_reset = 40;
   int ntasks = 1 + (r.chance(1, 4) ? 1 : 0);
   for (int i = 0; i < ntasks; i++) {
